@@ -10,7 +10,7 @@ mkdir -p $V/build/seedmatrix /tmp/sm
 one() {
   id=$1; tier=$2; V=$3
   d=/tmp/sm/$id
-  prop=$(python3 -c "import json,sys;print(json.load(open('$V/seeded/$id/meta.json'))['property'])")
+  prop=${PROP:-$(python3 -c "import json,sys;print(json.load(open('$V/seeded/$id/meta.json'))['property'])")}
   git -C /repo worktree remove --force $d/repo >/dev/null 2>&1; rm -rf $d; mkdir -p $d
   git -C /repo worktree add --detach $d/repo HEAD >/dev/null 2>&1 || { echo "$id $prop worktree-failed"; return; }
   if ! git -C $d/repo apply $V/seeded/$id/patch.diff 2>$d/apply.err; then
@@ -22,6 +22,7 @@ one() {
   rc=$?
   what=$(grep -E '^failing clause|^BROKEN' $V/build/seedmatrix/$id.log | head -2 | cut -c1-160 | tr '\n' ' ')
   viol=$(grep -E '^VIOLATION' $V/build/seedmatrix/$id.log | head -1 | sed 's#replay=[^ ]*##')
+  cp $d/verif/replays/$prop-*.jsonl $V/build/seedmatrix/$id.$prop.replay.jsonl 2>/dev/null
   echo "$id $prop rc=$rc $viol :: $what"
   git -C /repo worktree remove --force $d/repo >/dev/null 2>&1; rm -rf $d
 }
